@@ -37,8 +37,14 @@ int ascon_trng_generate(unsigned char *out, size_t outlen)
     int ok = 1;
     if (sys_hook)
         sys_hook(sys_calls);
-    if (sys_calls < sys_nstatus && sys_status && !sys_status[sys_calls])
+    /* status byte per call: 1 healthy; 0 failed, delivers zeroes (like the
+     * /dev/urandom backend); 2 reports failure but still delivers bytes (like
+     * the mixer backend, which squeezes its whitening PRNG regardless) */
+    int zero = 0;
+    if (sys_calls < sys_nstatus && sys_status && sys_status[sys_calls] != 1) {
         ok = 0;
+        zero = sys_status[sys_calls] != 2;
+    }
     ++sys_calls;
     for (i = 0; i < outlen; ++i) {
         if (sys_pos < sys_len) {
@@ -51,8 +57,8 @@ int ascon_trng_generate(unsigned char *out, size_t outlen)
             out[i] = (unsigned char)(sys_fallback >> 24);
         }
     }
-    if (!ok)
-        memset(out, 0, outlen); /* a failed source delivers zeroes, like the real one */
+    if (zero)
+        memset(out, 0, outlen);
     return ok;
 }
 
